@@ -474,6 +474,41 @@ class SOpaque(Sym):
         return f"SOpaque<{self.kind}>({self.e})"
 
 
+class SFmt(Sym):
+    """A `str` assembled by f-strings / `+` from literal text and decimal renderings of symbolic ints
+    (`f"[{y + 1:d};{x + 1:d}R"`): kept as the tuple of its parts (str | SInt), adjacent literals merged.
+    Model of `format(n, "d")`: the canonical decimal numeral of n (so two SFmt are equal iff their literal
+    skeletons agree and the ints agree — numerals do not contain the separators used here)."""
+
+    __slots__ = ("parts",)
+
+    def __init__(self, parts):
+        out = []
+        for p in parts:
+            if isinstance(p, str) and out and isinstance(out[-1], str):
+                out[-1] += p
+            elif not (isinstance(p, str) and not p):
+                out.append(p)
+        self.parts = tuple(out)
+
+    def __add__(self, o):
+        if isinstance(o, SFmt):
+            return SFmt(self.parts + o.parts)
+        if isinstance(o, str):
+            return SFmt(self.parts + (o,))
+        return NotImplemented
+
+    def __radd__(self, o):
+        if isinstance(o, str):
+            return SFmt((o,) + self.parts)
+        return NotImplemented
+
+    __hash__ = None
+
+    def __repr__(self):
+        return f"SFmt{self.parts!r}"
+
+
 # ---------------------------------------------------------------------------------------------
 # dual-use helpers (symbolic or concrete)
 
@@ -713,7 +748,7 @@ def forall(lo, hi, fn):
             r = both(r, fn(j))
         return r
     st = cur()
-    if st.capture is None:
+    if st.capture is None and not getattr(st, "has_quant", False):
         r0, _m = st._check(_z(lo) < _z(hi), 1000)
         if r0 == z3.unsat:
             return True  # empty range on this path
